@@ -191,6 +191,49 @@ USER_FEA = [
 ]
 
 
+def gdef_todo_level(ctx):
+    """GdefFeatureWriter.setContext: what is left to generate given the user's GDEF table, against Fea/GdefTodo.v"""
+    import itertools
+    from fontTools.feaLib.parser import Parser
+    from ufo2ft.featureWriters import GdefFeatureWriter
+    PARTS = {"GClassDef": "    GlyphClassDef [a], [f_i], [acutecomb], ;\n", "GCaretByPos": "    LigatureCaretByPos f_i 222;\n",
+             "GCaretByIndex": "    LigatureCaretByIndex f_i 2;\n", "GAttach": "    Attach a 1;\n"}
+    cases, meta = [], []
+    combos = [None, ()] + [c for r in (1, 2, 3) for c in itertools.combinations(PARTS, r)]
+    for user in combos:
+        for has_cat in (False, True):
+            for has_caret in (False, True):
+                glyphs = [{"name": "a", "unicodes": [0x61], "width": 500, "contours": [], "anchors": []},
+                          {"name": "acutecomb", "unicodes": [0x301], "width": 0, "contours": [], "anchors": []},
+                          {"name": "f_i", "unicodes": [], "width": 600, "anchors": [("caret_1", Fr(260), Fr(0))] if has_caret else [],
+                           "contours": [[(Fr(0), Fr(0), "line"), (Fr(480), Fr(0), "line"), (Fr(480), Fr(500), "line"), (Fr(0), Fr(500), "line")]]}]
+                fea = "" if user is None else "table GDEF {\n" + "".join(PARTS[k] for k in user) + "} GDEF;\n"
+                if user == ():
+                    fea = "table GDEF {\n} GDEF;\n"
+                desc = {"glyphs": glyphs, "features": fea,
+                        "lib": {"public.openTypeCategories": {"a": "base", "acutecomb": "mark", "f_i": "ligature"}} if has_cat else {}}
+                case = {"user_GDEF": None if user is None else list(user), "has_categories": has_cat, "has_caret_anchors": has_caret}
+                ctx.count(); ctx.klass("gdef-todo")
+                try:
+                    font = build_font(desc)
+                    ff = Parser(io.StringIO(fea), glyphNames=[g["name"] for g in glyphs]).parse()
+                    w = GdefFeatureWriter()
+                    c = w.setContext(font, ff)
+                    obs = (1 if "GlyphClassDefs" in c.todo else 0) + (2 if "LigatureCarets" in c.todo else 0)
+                except Exception as e:
+                    ctx.spec_failure(case, "GdefFeatureWriter.setContext raised %s: %s" % (type(e).__name__, e))
+                    continue
+                g_user = "(@None (list gdef_stmt))" if user is None else "(Some %s)" % G.lst(list(user), "gdef_stmt")
+                cases.append(G.tup(G.tup(g_user, G.tup(G.b(has_cat), G.b(has_caret))), G.z(obs)))
+                meta.append(dict(case, todo_code=obs))
+    vals = ctx.coq_eval("From U2F Require Import Base.Prelude Fea.GdefTodo.",
+                        "fun c : ((option (list gdef_stmt) * (bool * bool)) * Z) => if Z.eqb (todo_code (gdef_todo_of (fst (fst c)) "
+                        "(fst (snd (fst c))) (snd (snd (fst c))))) (snd c) then 3 else 2", cases, chunk=200, tag="GdefTodo")
+    for v, case in zip(vals, meta):
+        if v is not None and v != 3:
+            ctx.corr_mismatch(case, "Gallina gdef_todo_of differs from GdefFeatureWriter.setContext's todo set")
+
+
 def indic_level(ctx):
     """a hand-written feature WITHOUT the marker is left alone also for the Indic mark features: a user abvm (or blwm, mark,
     mkmk) block is not duplicated, the ones the user did not write are generated"""
@@ -352,6 +395,7 @@ def compile_level(ctx):
                 if after and not auto[0] < after[0]:
                     ctx.spec_failure(case, "marker in the middle but the rules after it precede the generated kern")
     indic_level(ctx)
+    gdef_todo_level(ctx)
     # GSUB writers run first
     from ufo2ft.featureCompiler import FeatureCompiler
     from ufo2ft.featureWriters import KernFeatureWriter, MarkFeatureWriter, BaseFeatureWriter
